@@ -360,6 +360,10 @@ fn validate_tx_scripts(
         tx.hash_nosigs()
     );
     if !good_scripts.contains(&coin_data.coin_data.covhash) {
+        // A covenant is told the position of the coin among the inputs in 8 bits. Cutting a larger position down to its low
+        // byte showed the covenant of input 256 the index 0 (a coin bound to a position, or the new-style signature covenant,
+        // could then be spent from the wrong place), so an input whose position cannot be shown is not evaluated at all.
+        let spender_index = u8::try_from(spend_idx).map_err(|_| StateError::MalformedTx)?;
         let script = Covenant::from_bytes(
             &scripts
                 .get(&coin_data.coin_data.covhash)
@@ -373,7 +377,7 @@ fn validate_tx_scripts(
                 Some(CovenantEnv {
                     parent_coinid: *coin_id,
                     parent_cdh: coin_data.clone(),
-                    spender_index: spend_idx as u8,
+                    spender_index,
                     last_header,
                 }),
             )
